@@ -236,7 +236,17 @@ def _run_own(tier, seed, build, res):
                         ('\\newcommand{\\xa}{one}A\\footnote{F \\xa{} G} \\renewcommand{\\xa}{two}'
                          'B \\xa{} C', 'F one G'),
                         ('A\\footnote{F \\xq{} G} \\newcommand{\\xq}{late} B \\xq{} C', 'F G'),
-                        ('\\newcommand{\\xb}[1][D]{<#1>}\\textbf{A \\xb}\n', 'A <D>')):
+                        ('\\newcommand{\\xb}[1][D]{<#1>}\\textbf{A \\xb}\n', 'A <D>'),
+                        # a redefinition of a package macro survives a later package
+                        # that requires the first (class options in force)
+                        ('\\documentclass[12pt]{article}\\usepackage{amsmath}'
+                         '\\renewcommand{\\eqref}[1]{Eq #1}\\usepackage{mathtools}See \\eqref{a}.',
+                         'See Eq a.'),
+                        ('\\documentclass[a4paper,12pt]{scrartcl}\\usepackage{tikz}'
+                         '\\renewcommand{\\tikzset}[1]{TS}\\usepackage{pgfplots}A \\tikzset{x} B',
+                         'A TS B'),
+                        ('\\usepackage{amsmath}\\renewcommand{\\eqref}[1]{Eq #1}'
+                         '\\usepackage{mathtools}See \\eqref{a}.', 'See Eq a.')):
         c = parsecase.T2T(latex, lang='en', pack='', files=dict(rfiles))
         im = parsecase.run_t2t(c)
         res.count('order', c.key())
